@@ -181,10 +181,32 @@ def _tag(data: bytes) -> str:
 # ---------------------------------------------------------------------------
 # what is checked of any octets handed to a parser
 # ---------------------------------------------------------------------------
+def _view(ctx: Ctx, j: Judge, data: bytes, fault: str, tail: bytes | None) -> None:
+    """The streamed reader of the same octets (C19): PsbtView walks the maps without parsing them, so what it
+    makes of a hostile length or count is its own; only library exceptions may leave it, whichever question is asked."""
+    from btclib.psbt import PsbtView  # noqa: PLC0415
+
+    def walk() -> int:
+        view = PsbtView(data if tail is None else io.BytesIO(data + tail))
+        asked = 0
+        for ask in (lambda: view.tx, lambda: view.lock_time, lambda: view.prevouts, lambda: view.input(0), lambda: view.output(0), lambda: view.input(1)):
+            try:
+                ask()
+                asked += 1
+            except BTClibException:
+                pass
+        return asked
+
+    ok, _ = j.call(f"PsbtView/{fault}", walk)
+    ctx.probe("view-built" if ok else "view-refused")
+
+
 def _accept(ctx: Ctx, j: Judge, codec: go.Codec, data: bytes, cv: bool, fault: str, tail: bytes | None) -> Any:
     """Hand ``data`` to ``codec.parse`` -- as octets, or (``tail`` given) in the caller's
     stream with ``tail`` after it. Refused, or accepted and canonical; returns the object."""
     site = f"{codec.name}.parse/{fault}"
+    if codec.name == "Psbt":
+        _view(ctx, j, data, fault, tail)
     if tail is None:
         ok, obj = j.call(site, lambda: codec.parse(data, cv))
         consumed = data
